@@ -707,6 +707,8 @@ func (c04) Run(t TestingT, scn json.RawMessage, tape *Tape) *Outcome {
 			_, fpath, _ := strings.Cut(k, "@")
 			ftyp := ci.typeOfPos(fpath)
 			guarded := strings.HasPrefix(k, "IT@") && ftyp != "" && !isListType(ftyp) && c04IsTypeNames[namedOf(ftyp)]
+			// (likewise a position declared with the interface that has a type resolver)
+			guarded = guarded || (strings.HasPrefix(k, "RT@") && ftyp != "" && !isListType(ftyp) && namedOf(ftyp) == "Node")
 			if ci.Consulted[k] || guarded {
 				o.Violate("C04/callback-not-consulted", "the only planned fault %s=%s did not fire: the type callback that the fault-free run consulted at that position was not consulted in this run\n got: %s", k, f, raw)
 			}
